@@ -70,6 +70,56 @@ theorem array_ness_kept (f : Field) :
 theorem reference_target_kept (t u : String) (h : kindSchema (.ref t) = kindSchema (.ref u)) : t = u := by
   simpa [kindSchema] using h
 
+theorem insertByNum_perm (x : Int × String) (l : List (Int × String)) : (insertByNum x l).Perm (x :: l) := by
+  induction l with
+  | nil => exact List.Perm.refl _
+  | cons y ys ih =>
+    unfold insertByNum
+    split
+    · exact List.Perm.refl _
+    · exact (List.Perm.cons y ih).trans (List.Perm.swap x y ys)
+
+theorem sortByNum_perm (items : List (Int × String)) : (items.foldr insertByNum []).Perm items := by
+  induction items with
+  | nil => exact List.Perm.refl _
+  | cons x xs ih => exact (insertByNum_perm x _).trans (List.Perm.cons x ih)
+
+theorem insertByNum_sorted (x : Int × String) (l : List (Int × String))
+    (h : l.Pairwise (fun a b => a.1 ≤ b.1)) : (insertByNum x l).Pairwise (fun a b => a.1 ≤ b.1) := by
+  induction l with
+  | nil => simp [insertByNum]
+  | cons y ys ih =>
+    unfold insertByNum
+    have hy := List.pairwise_cons.mp h
+    split
+    · rename_i hxy
+      refine List.pairwise_cons.mpr ⟨?_, h⟩
+      intro z hz
+      cases hz with
+      | head => exact hxy
+      | tail _ hz' => exact Int.le_trans hxy (hy.1 z hz')
+    · rename_i hxy
+      refine List.pairwise_cons.mpr ⟨?_, ih hy.2⟩
+      intro z hz
+      have := (insertByNum_perm x ys).mem_iff.mp hz
+      cases this with
+      | head => omega
+      | tail _ hz' => exact hy.1 z hz'
+
+/-- **enum_values_exact** (C12): the enum schema lists every declared value exactly once, whatever numbers the
+    values carry (dense, sparse, offset, declared in any order) -/
+theorem enum_values_exact (items : List (Int × String)) : (exportEnum items).Perm (items.map (·.2)) :=
+  (sortByNum_perm items).map _
+
+/-- **enum_values_in_number_order**: and lists them by ascending number -/
+theorem enum_values_in_number_order (items : List (Int × String)) :
+    (items.foldr insertByNum []).Pairwise (fun a b => a.1 ≤ b.1) := by
+  induction items with
+  | nil => exact List.Pairwise.nil
+  | cons x xs ih => exact insertByNum_sorted x _ ih
+
+example : exportEnum [(7, "NEW"), (2, "PAID"), (40, "SENT"), (3, "LOST")] = ["PAID", "LOST", "NEW", "SENT"] := by decide
+
 /-- non-vacuity: three non-optional fields are all required, sorted -/
 example : (exportTuple [⟨"name", .prim "string", false, false⟩, ⟨"kind", .ref "K", false, false⟩, ⟨"age", .prim "int", false, true⟩,
     ⟨"owner", .ref "O", true, false⟩]).required = ["kind", "name", "owner"] := by decide
